@@ -6,7 +6,7 @@ SCR=$(mktemp -d /tmp/hvc-scr.XXXXXX)
 OUT=$(mktemp -d /tmp/hvc-out.XXXXXX)
 rsync -a --exclude .git --exclude doc /repo/ $SCR/
 (cd $SCR && patch -s -p1 < $PATCH) || { echo "patch failed"; rm -rf $SCR $OUT; exit 3; }
-HVC_REPO=$SCR HVC_OUT=$OUT /verif/bin/hvc check $P 2>&1 | grep -E "VIOLATION|KNOWN|broken|discharged" | cut -c1-300
+HVC_REPO=$SCR HVC_OUT=$OUT ${HVC_BIN:-/verif/bin/hvc} check $P 2>&1 | grep -E "VIOLATION|KNOWN|broken|discharged" | cut -c1-300
 for f in $OUT/replay/$P/*.json; do echo "== $f"; python3 -c "
 import json,sys
 r=json.load(open('$f'))
